@@ -376,8 +376,10 @@ func c18Protection(r *Run, rng *Rng, alg, pw string, workbook bool) {
 		if pw == "" {
 			return
 		}
-		// any other password is refused (XOR: unless the 16-bit hashes collide)
-		if e := unprotect(g, other); e == nil && !xorCollide {
+		// any other password is refused (XOR: unless the 16-bit hashes collide); the quick tier
+		// asks this of the live file only (each ISO hash costs 100 000 spins)
+		if phase != "" && r.Tier != "thorough" {
+		} else if e := unprotect(g, other); e == nil && !xorCollide {
 			r.Fail("protect:"+kind+":wrong-accepted:"+alg+phase, fmt.Sprintf("protected with %q (%s); Unprotect(%q) succeeded", pw, alg, other), 0, replay)
 			_ = protect(g)
 		}
@@ -414,6 +416,7 @@ func c18Extra(r *Run, rng *Rng) {
 	for i := 0; i < 1500*mul; i++ {
 		c18HelperCase(r, rng)
 	}
+	c18Lap(r, "dimension+helpers")
 	for _, s := range c18Frags {
 		c18Esc(r, s)
 		c18Unesc(r, s)
@@ -437,6 +440,7 @@ func c18Extra(r *Run, rng *Rng) {
 		}
 		c18DropList(r, ks)
 	}
+	c18Lap(r, "escapers+droplists")
 	// XOR hash: lengths 0..40 of one letter (deterministic), then random
 	for n := 0; n <= 40; n++ {
 		c18XorPw(r, strings.Repeat("A", n))
@@ -471,19 +475,32 @@ func c18Extra(r *Run, rng *Rng) {
 	}
 	c18ProtUn(r, "password", "password", true)
 	c18ProtUn(r, "", "x", true)
+	c18Lap(r, "xor")
 	// protection through the public API, every algorithm
 	for _, wb := range []bool{false, true} {
 		for i, alg := range c18Algs {
+			if wb && !thorough && !c18In([]string{"", "MD5", "SHA-256", "XOR", "bogus"}, alg) {
+				continue // quick tier: every algorithm on sheets, a subset on the workbook
+			}
 			c18Protection(r, rng, alg, c18Pws[(i+map[bool]int{false: 0, true: 3}[wb])%len(c18Pws)], wb)
 		}
 		c18Protection(r, rng, "", "", wb)
 		c18Protection(r, rng, "SHA-512", "", wb)
 	}
-	for i := 0; i < 6*mul; i++ {
+	nRandProt := 2
+	if thorough {
+		nRandProt = 60
+	}
+	for i := 0; i < nRandProt; i++ {
 		c18Protection(r, rng, c18Algs[rng.Intn(7)], c18Pws[rng.Intn(len(c18Pws))], rng.Bool())
 	}
+	c18Lap(r, "protection")
 	c18DefinedNames(r, rng, mul)
+	c18Lap(r, "definednames")
 	c18Lists(r, rng, mul)
+	c18Lap(r, "lists")
+	c18Histories(r, rng, mul)
+	c18Lap(r, "histories")
 }
 
 func c18ReplayLine(r *Run, rng *Rng, line string, w []string) {
